@@ -378,6 +378,16 @@ def evaluate(case, louts, ctx):
                 continue
             got = common.call_impl(lambda: getattr(p_t, "inserted_%s_idxs" % nm))
             sc.compare(findings, "spec", "inserted_%s_idxs" % nm, got, [i for i, x in enumerate(order) if x < 0], "k=%d" % k)
+            # derived (MR insertion) items keep their identity under re-ordering
+            if is_slice:
+                g0 = common.call_impl(lambda: getattr(p_0, "derived_%s_idxs" % nm))
+                gt = common.call_impl(lambda: getattr(p_t, "derived_%s_idxs" % nm))
+                o0_ = ro_0 if nm == "row" else co_0
+                if isinstance(g0, list) and isinstance(gt, list):
+                    der = {o0_[i] for i in g0}
+                    sc.compare(findings, "spec", "derived_%s_idxs" % nm, gt, [i for i, x in enumerate(order) if x in der], "k=%d" % k)
+                elif g0 != gt:
+                    findings.append({"kind": "spec", "locus": "derived_%s_idxs.raises" % nm, "detail": "%r vs %r" % (gt, g0)})
             d0 = common.call_impl(lambda: getattr(p_0, "diff_%s_idxs" % nm))
             dt = common.call_impl(lambda: getattr(p_t, "diff_%s_idxs" % nm))
             o0 = ro_0 if nm == "row" else co_0
